@@ -101,8 +101,10 @@ ASSUMPTIONS = [
     "only with scripting disabled) are generated, compared byte for byte with the model and checked by the oracle with "
     "noscript read as an ordinary element, and the model theorem C18_element_ignores_parent_escape states that an "
     "element renders the same bytes whatever escape flag its parent hands down",
-    "the theorems do not cover a <script> below an SVG / MathML element (wf excludes it): which constructor renders it "
-    "depends on its siblings (open finding F-C18-j); such templates are judged by the oracle only",
+    "the theorems do not cover elements named script / style / noscript below an SVG / MathML element (wf excludes "
+    "them: the HTML parser reads them as ordinary elements there, Html/MacroParse.v knows raw-text elements by name); "
+    "the model threads the parent namespace and the inert path's foreign-content flag, so such templates are compared "
+    "byte for byte and judged by the oracle (open finding F-C18-l where the two paths escape differently)",
     "tag and attribute names consist of ASCII letters, digits, '-', '_', ':'; void elements have no children; the "
     "obsolete <param> (void for the macro, unknown to tachys) is not used",
     "an element has at most 26 attributes: beyond that the builder path stops with tachys' run-time "
@@ -122,7 +124,7 @@ LEVEL_TEXT = ("Coq proofs, for all well-formed templates, that the HTML of the i
               "comparing to_html() byte for byte with the "
               "extracted model, plus an independent Python parse-and-compare oracle. PARTIAL: rstml parsing, token "
               "plumbing, component/slot expansion, spreads, non-string blocks and the alternative exits / configuration are "
-              "compared only, not modelled; a <script> below SVG is outside the theorems (open finding F-C18-j).")
+              "compared only, not modelled; script / style / noscript below SVG / MathML are outside the theorems (modelled and compared; open finding F-C18-l).")
 LEVEL_NOTE = ("Trusted: Coq kernel, extraction + OCaml driver, rustc, the harness. Modelled not verified: tachys SSR "
               "of elements/attributes/strings/tuples, html_escape, small-slice sort_by. Partial: see trusted_base.")
 TECHNIQUE = ("Coq proof (structural induction over templates, a byte-at-a-time parser state machine) + differential "
@@ -306,6 +308,14 @@ def gen_children(rng, depth, dyn_p, in_svg=False):
 
 
 def gen_elem(rng, depth, dyn_p, in_svg=False):
+    if in_svg and rng.random() < 0.12:
+        # names the macro resolves by the parent's namespace; text with markup-significant characters
+        tag = pick(rng, ["style", "script", "title", "a", "style"])
+        ch = [gen_text(rng, dyn_p, ["a<b", "p>q{}", "x&y", "safe", "1 << 2", "é"]) for _ in range(pick(rng, [1, 1, 2]))]
+        if tag == "title":
+            ch = ch[:1]
+        attrs = pick(rng, [[], [["p", "id", ["lit", "k"]]], [["p", "id", ["str", "k"]]] if dyn_p else []])
+        return ["e", tag, attrs, ch]
     if in_svg:
         tag = pick(rng, SVG_CHILD)
         ch = gen_children(rng, depth, dyn_p, True) if tag in ("g", "text", "defs", "tspan") else []
@@ -910,10 +920,19 @@ FIXED_AUDIT = [
     ("svg-ambiguous", [E("div", [], [E("p", [_lit("id", "w")], [E("svg", [], [E("a", [_lit("href", "#x")], [["t", "a<b"]])])])])]),
     ("svg-ambiguous", [E("div", [], [E("p", [_lit("id", "w")], [E("svg", [], [E("title", [], [["t", "a<b"]])])])])]),
     ("svg-ambiguous", [E("svg", [], [E("g", [], [E("a", [_lit("xlink:href", "#x")], [["t", "t"]])])])]),
-    # … and a <script> resolved that way escapes its text, html::script / the inert path do not — F-C18-j (open)
+    # script / style below SVG are svg:: whatever their siblings, and escaped on both paths (F-C18-j, fixed ca6d806)
     ("svg-script", [E("div", [], [E("p", [_lit("id", "w")], [E("svg", [], [E("script", [], [["t", "a<b"]])])])])]),
     ("svg-script", [E("svg", [], [E("script", [], [["t", "if (a<b && c) {}"]]), E("g", [], [])])]),
     ("svg-script", [E("div", [], [E("p", [_lit("id", "w")], [E("svg", [], [E("script", [_lit("id", "s")], [["t", "safe"]]), E("g", [], [])])])])]),
+    ("svg-script", [E("div", [], [E("p", [_lit("id", "w")], [E("svg", [], [E("style", [], [["t", "a<b&c"]])])])])]),
+    ("svg-script", [E("div", [], [E("p", [_lit("id", "w")], [E("svg", [], [E("style", [], [["t", "a<b"], ["t", "c>d"]]), E("g", [], [])])])])]),
+    ("svg-script", [E("svg", [], [E("g", [], [E("script", [], [["t", "a<b"], ["b", "x&"]]), E("style", [], [["b", "p>q"]])])])]),
+    ("svg-script", [E("div", [], [E("p", [_lit("id", "w")], [E("svg", [], [E("foreignObject", [], [E("style", [], [["t", "a<b"]]), E("p", [], [["t", "x<"]])])])])])]),
+    ("svg-script", [E("div", [], [E("p", [_lit("id", "w")], [E("svg", [], [E("desc", [], [E("style", [], [["t", "a<b"]])]), E("title", [], [["t", "t<"]])])])])]),
+    # F-C18-l (open): the inert path's foreign-content rule and the builder's constructor disagree
+    ("foreign-raw", [E("div", [], [E("p", [_lit("id", "w")], [E("math", [], [E("style", [], [["t", "a<b"]])])])])]),
+    ("foreign-raw", [E("div", [], [E("p", [_lit("id", "w")], [E("svg", [], [E("noscript", [], [["t", "a<b"]])])])])]),
+    ("foreign-raw", [E("div", [], [E("p", [_lit("id", "w")], [E("svg", [], [E("my-el", [], [E("div", [_lit("id", "d")], [E("style", [], [["t", "a<b"]])])])])])])]),
     # comments, doctype, unquoted text
     ("syntax", [E("div", [], [E("p", [_lit("id", "a")], [["cm", "c"], ["t", "x"]])])]),
     ("syntax", [["cm", "c"], E("p", [], [["t", "x"]])]),
@@ -1048,8 +1067,8 @@ def generate_(rng, tier):
     for t in FIXED_NOSCRIPT:
         yield dict(tpl=t, kind="below-noscript", compare=True, noscript_html=True, streams=True)
     for kind, t in FIXED_AUDIT:
-        # the model reads every <script> as HTML raw text: below SVG it is compared by the oracle only (wf excludes it)
-        yield _item(t, kind, streams=(len(json.dumps(t)) < 4000), **({"compare_off": True} if kind == "svg-script" else {}))
+        # script / style below SVG: compared with the model byte for byte (it threads the namespace), outside [wf]
+        yield _item(t, kind, streams=(len(json.dumps(t)) < 4000), )
     for t in FIXED_AUDIT_COMPONENT:
         yield _item(t, "component", streams=True, force_streams=True)
     for t in FIXED_AUDIT_CLONE:
@@ -1523,6 +1542,8 @@ def add_text(children, s):
 
 
 FOREIGN_ROOTS = ("svg", "math")
+INTEGRATION = ("foreignObject", "desc", "title")     # HTML integration points of SVG: their content is HTML again
+RAW3 = ("script", "style", "noscript")
 
 
 def in_foreign(stack):
@@ -1530,7 +1551,7 @@ def in_foreign(stack):
     for tag, _, _ in reversed(stack):
         if tag in FOREIGN_ROOTS:
             return True
-        if tag == "foreignObject":
+        if tag in INTEGRATION:
             return False
     return False
 
@@ -1591,8 +1612,8 @@ def parse_html(s, tolerate_title=False, noscript_html=False, tolerate_svg_script
             foreign = in_foreign(stack)
             if tag in H_VOID and not foreign:
                 cur.append(("elem", tag, attrs, []))
-            elif foreign and tag == "script" and tolerate_svg_script:
-                em = re.compile(r"</script[\s/>]", re.I).search(s, i)       # F-C18-j: the text is not looked at
+            elif foreign and tag in RAW3 and tolerate_svg_script:
+                em = re.compile(r"</%s[\s/>]" % tag, re.I).search(s, i)     # F-C18-l: the text is not looked at
                 cur.append(("elem", tag, attrs, []))
                 g = s.find(">", em.start()) if em else -1
                 i = n if g < 0 else g + 1
@@ -1899,10 +1920,10 @@ def drop_svg_script_text(forest, foreign=False):
     for n in forest:
         if n[0] == "text":
             out.append(n)
-        elif foreign and n[1] == "script":
+        elif foreign and n[1] in RAW3:
             out.append(("elem", n[1], n[2], []))
         else:
-            out.append(("elem", n[1], n[2], drop_svg_script_text(n[3], (foreign or n[1] in FOREIGN_ROOTS) and n[1] != "foreignObject")))
+            out.append(("elem", n[1], n[2], drop_svg_script_text(n[3], (foreign or n[1] in FOREIGN_ROOTS) and n[1] not in INTEGRATION)))
     return out
 
 
@@ -1971,30 +1992,79 @@ def title_adjacent(tpl):
     return False
 
 
-def svg_script(tpl, foreign=False):
-    """KnownClass of F-C18-j: a <script> with markup-significant text below an SVG / MathML element"""
+MACRO_SVG = None
+
+
+def _macro_svg():
+    global MACRO_SVG
+    if MACRO_SVG is None:
+        src = open(os.path.join(C.ROOT, "coq", "theories", "Html", "Macro.v")).read()
+        body = lambda name: re.findall(r'"([^"]+)"', src[src.index("Definition %s " % name):].split("%string")[0])
+        MACRO_SVG = (set(body("macro_svg")), set(body("macro_mathml")))
+    return MACRO_SVG
+
+
+def child_ns(ns, tag):
+    """the macro's parent_type handed to the children of `tag` (ns in 'U','H','S','M')"""
+    svg, mathml = _macro_svg()
+    if "-" in tag:
+        own = ns
+    elif tag in svg:
+        own = "S"
+    elif tag in mathml:
+        own = "M"
+    elif tag in ("a", "script", "style", "title"):
+        own = ns
+    else:
+        own = "H"
+    return "H" if own == "S" and tag in INTEGRATION else own
+
+
+def svg_script(tpl, foreign=False, ns="U"):
+    """KnownClass of F-C18-l: an element named script / style / noscript with markup-significant text that the inert
+    path escapes (it lies in SVG / MathML content, by the macro's rule) while the builder path writes it raw (its
+    constructor is the HTML one: not script/style directly below an SVG-namespace parent), or the other way round"""
     for n in tpl:
         if n[0] == "e":
-            if foreign and n[1] == "script" and any(ch in "".join(c[1] for c in n[3] if c[0] in ("t", "b", "r")) for ch in "<>&"):
+            tag = n[1]
+            fe = foreign or tag in FOREIGN_ROOTS
+            if tag in RAW3:
+                builder_escapes = tag in ("script", "style") and ns == "S"
+                hot = any(ch in "".join(c[1] for c in n[3] if c[0] in ("t", "b", "r")) for ch in "<>&")
+                if hot and fe != builder_escapes:
+                    return True
+            if svg_script(n[3], fe and tag not in INTEGRATION, child_ns(ns, tag)):
                 return True
-            if svg_script(n[3], (foreign or n[1] in FOREIGN_ROOTS) and n[1] != "foreignObject"):
-                return True
-        elif n[0] == "f" and svg_script(n[1], foreign):
+        elif n[0] == "f" and svg_script(n[1], foreign, ns):
             return True
-        elif n[0] == "c" and svg_script(comp_children(n), False):
+        elif n[0] == "c" and svg_script(comp_children(n), False, "U"):
+            return True
+    return False
+
+
+def rawish_below_foreign(tpl, below=False):
+    """outside [wf] of the theorems: an element named script / style / noscript below an SVG / MathML element"""
+    svg, mathml = _macro_svg()
+    for n in tpl:
+        if n[0] == "e":
+            if below and n[1] in RAW3:
+                return True
+            if rawish_below_foreign(n[3], below or n[1] in svg or n[1] in mathml):
+                return True
+        elif n[0] == "f" and rawish_below_foreign(n[1], below):
             return True
     return False
 
 
 def classify(item, impl, model):
     """F-C18-f: the failure disappears when the literal `<!>` inside <title> is ignored, and the template has a
-    <title> with two text children; F-C18-j: the failure disappears when the text of a <script> below an SVG element is
-    not looked at, and the template has such a script with markup-significant text; any other failure stays
+    <title> with two text children; F-C18-l: the failure disappears when the text of script / style / noscript elements in
+    foreign content is not looked at, and the template has one that the two paths escape differently; any other failure stays
     unclassified"""
     if title_adjacent(item["tpl"]) and oracle(item, impl) and not oracle(item, impl, tolerate_title=True):
         return "F-C18-f"
     if svg_script(item["tpl"]) and oracle(item, impl) and not oracle(item, impl, tolerate_svg_script=True):
-        return "F-C18-j"
+        return "F-C18-l"
     if wide_fragment_children(item["tpl"]) and oracle(item, impl) and not oracle(item, impl, tolerate_frag=True):
         return "F-C18-k"
     return None
@@ -2147,7 +2217,8 @@ def evaluate(items, exe, model_exe):
                 # instances of the theorems, evaluated by the extracted model itself
                 # (elements below <noscript> are outside [wf]: Html/MacroParse.v reads noscript as raw text)
                 r["instance"] = (((m[3] == m[4] == m[5]) and (mt[3] == mt[4] == mt[5]))
-                                 or title_adjacent(it["tpl"]) or bool(it.get("noscript_html")))
+                                 or title_adjacent(it["tpl"]) or bool(it.get("noscript_html"))
+                                 or rawish_below_foreign(it["tpl"]))
                 # the Coq [denote] is the tree the generator intended
                 if tree_of_sexp(m[3]) != expect(it["tpl"]):
                     r["spec_drift"] = first_diff(tree_of_sexp(m[3]), expect(it["tpl"]))
